@@ -538,8 +538,11 @@ class HomeKitConnection:
         # https://github.com/jlusiardi/homekit_python/issues/12
         # https://github.com/jlusiardi/homekit_python/issues/16
 
+        protocol = self.protocol
         async with self._concurrency_limit:
-            if not self.protocol:
+            if not self.protocol or self.protocol is not protocol:
+                # The connection we were queued for is gone. Never send the
+                # request on a different (possibly not yet secured) connection.
                 raise AccessoryDisconnectedError("Tried to send while not connected")
             logger.debug("%s: raw request: %r", self.connected_host, request_bytes)
             resp = await self.protocol.send_bytes(request_bytes)
